@@ -19,7 +19,8 @@ import ast
 import json
 import random
 import warnings
-from concurrent.futures import ThreadPoolExecutor, as_completed
+import multiprocessing
+from concurrent.futures import ProcessPoolExecutor, ThreadPoolExecutor, as_completed
 from pathlib import Path
 
 from gverif import tlc
@@ -31,6 +32,7 @@ PRELUDE = "from typing import Literal\nimport typing as t\n"
 CMPOPS = list(A.CMPOPS)
 QUICK_STRIDE = 101       # quick: 1/101 of the two-edge chains
 THOROUGH_STRIDE, THOROUGH_PARTS = 35, 7   # thorough: 7 residues mod 35 = 1/5 of them
+REPLAY_PROCS = 6
 
 
 class World:
@@ -123,8 +125,19 @@ def check_case(run: Run, w: World, case: dict, variant: int, stats: dict):
     run.replayed()
     real = A.merged([p if isinstance(p, str) else ("n", p[1]) for p in flat])
     model = A.merged(A.concretise(impl_t, A.strings_in_order(itree, skip_spec=True)))
-    conforms = real == model
-    if not conforms:
+    strict = real == model
+    # The model's Impl explains the real output when both are the same code as far as the property can tell: they parse to
+    # the same tree (redundant parentheses, spacing and literal spelling aside) or - when neither parses - are the same
+    # text up to white space; and they carry the same ExprName elements.
+    conforms = strict
+    if not strict and [p for p in real if not isinstance(p, str)] == [p for p in model if not isinstance(p, str)]:
+        r_node, m_node = A.parse_in(top, A.text(real)), A.parse_in(top, A.text(model))
+        same_modulo_space = "".join(A.text(real).split()) == "".join(A.text(model).split())
+        if r_node is not None and m_node is not None:
+            conforms = A.dump(r_node) == A.dump(m_node) or same_modulo_space
+        elif r_node is None and m_node is None:
+            conforms = same_modulo_space
+    if not strict:
         stats["drift"] += 1
         if len(stats["drift_examples"]) < 5:
             stats["drift_examples"].append(f"{cid}: real {A.text(real)!r} model {A.text(model)!r}")
@@ -222,15 +235,72 @@ def tlc_jobs(tier: str) -> dict:
     return jobs
 
 
+class Collector:
+    """What check_case reports, gathered in a worker process and merged into the Run by the parent."""
+
+    def __init__(self):
+        self.n_eval = self.n_replayed = 0
+        self.nontrivial, self.samples, self.violations = [], [], []
+
+    def evaluated(self, n=1):
+        self.n_eval += n
+
+    def replayed(self, n=1):
+        self.n_replayed += n
+
+    def nontrivial_case(self, key):
+        self.nontrivial.append(key)
+
+    def sample(self, case):
+        if len(self.samples) < 2:
+            self.samples.append(case)
+
+    def violation(self, sig, what, case=None):
+        self.violations.append((sig, what, case))
+
+
+_WORLD = None
+
+
+def _replay_chunk(chunk: list):
+    """Worker: replay [(case, [variants])...] on the real code; returns (Collector, stats)."""
+    global _WORLD  # noqa: PLW0603
+    if _WORLD is None:
+        warnings.filterwarnings("ignore", category=SyntaxWarning)
+        _WORLD = World(ensure_repo())
+    col, stats = Collector(), new_stats()
+    for case, variants in chunk:
+        for v in variants:
+            check_case(col, _WORLD, case, v, stats)
+    return col, stats
+
+
+def new_stats() -> dict:
+    return {"drift": 0, "drift_examples": [], "parens_validated": 0, "not_reproduced": 0, "sites": 0, "clean": 0}
+
+
+def merge(run: Run, stats: dict, col: Collector, st: dict):
+    run.evaluated(col.n_eval)
+    run.replayed(col.n_replayed)
+    for key in col.nontrivial:
+        run.nontrivial_case(key)
+    for x in col.samples:
+        run.sample(x)
+    for v in col.violations:
+        run.violation(*v)
+    for k, v in st.items():
+        stats[k] = stats[k] + v if k != "drift_examples" else (stats[k] + v)[:5]
+
+
 def main(tier: str, replay: str | None = None):
     griffe = ensure_repo()
     w = World(griffe)
     run = Run("C03", tier)
-    run.rule = ("ExprBuild.tla: chains of node templates (78 shapes over the 28 node types of _node_map, 13 binary / 4 unary / 2 boolean / 10 comparison operators): "
+    run.rule = ("ExprBuild.tla: chains of node templates (79 shapes over the 28 node types of _node_map, 13 binary / 4 unary / 2 boolean / 10 comparison operators): "
                 "every single shape, every (parent shape, slot, child shape) edge, two-edge chains (all in thorough, a seeded 1/37 in quick), each as value and - when strings "
                 "occur - as annotation with and without postponed evaluation; every lambda parameter list with <=2 positional-only, <=2 positional-or-keyword, <=2 keyword-only, "
                 "defaults, *args, **kwargs. Non-trivial = a chain with at least one edge or a lambda with parameters; distinct by chain / parameter list.")
-    stats = {"drift": 0, "drift_examples": [], "parens_validated": 0, "not_reproduced": 0, "sites": 0, "clean": 0}
+    stats = new_stats()
     warnings.filterwarnings("ignore", category=SyntaxWarning)
     if replay:
         with open(replay) as fh:
@@ -256,7 +326,9 @@ def main(tier: str, replay: str | None = None):
     rnd = random.Random(SEED)
     seq = 0
     dres = None
-    with ThreadPoolExecutor(max_workers=4 if tier == "quick" else 2) as ex:
+    pending = []
+    with ProcessPoolExecutor(max_workers=REPLAY_PROCS, mp_context=multiprocessing.get_context("spawn")) as pool, \
+            ThreadPoolExecutor(max_workers=4 if tier == "quick" else 2) as ex:
         futs = {ex.submit(tlc.run, "ExprBuild", j.pop("cfg", "ExprBuild_check.cfg"), timeout=1100 if tier == "thorough" else 170, **j): name for name, j in jobs.items()}
         for fut in as_completed(futs):
             name, res = futs[fut], fut.result()
@@ -265,16 +337,25 @@ def main(tier: str, replay: str | None = None):
                 continue
             tlc.must(res)
             run.add_tlc(res)
+            chunk = []
             for case in res.cases:
                 seq += 1
                 depth = len(case["chain"])
                 counts["lambda" if depth == 0 else "depth3" if depth == 3 else "depth<=2"] += 1
-                check_case(run, w, case, seq + SEED, stats)
+                variants = [seq + SEED]
                 if tier == "thorough" and depth <= 2:
-                    check_case(run, w, case, seq + SEED + 1 + rnd.randrange(8), stats)   # another operator of each class
+                    variants.append(seq + SEED + 1 + rnd.randrange(8))      # another operator of each class
+                chunk.append((case, variants))
+                if len(chunk) == 400:
+                    pending.append(pool.submit(_replay_chunk, chunk))
+                    chunk = []
                 if 0 < depth <= 2:
                     keep.append(case)
+            if chunk:
+                pending.append(pool.submit(_replay_chunk, chunk))
             res.cases = []
+        for fut in pending:
+            merge(run, stats, *fut.result())
     # the defect domain: TLC must exhibit a violation of the property on the model, and the real code must reproduce it
     tlc.must(dres, allow_violations=True)
     run.add_tlc(dres)
@@ -288,11 +369,14 @@ def main(tier: str, replay: str | None = None):
     # vacuity: the case space has the expected size
     if counts["depth<=2"] < 5000 or counts["lambda"] < 500 or counts["depth3"] < (3000 if tier == "quick" else 80000):
         die(f"C03: case space shrank: {counts}")
+    if not stats["clean"] or stats["clean"] == seq:
+        die(f"C03: the clean domain ({stats['clean']} of {seq} cases) is empty or everything - CleanHolds / NoDefect are vacuous")
     run.extra["cases"] = counts
     singles = [c for c in keep if len(c["chain"]) == 1 and c["top"] == "value"]
     edges = [c for c in keep if len(c["chain"]) == 2 and c["top"] == "value"]
     check_contexts(run, w, singles + (edges if tier == "thorough" else rnd.sample(edges, 600)), stats)
-    run.exhaustive = tier == "thorough"
+    run.exhaustive = False      # exhaustive at depth <= 2 and for lambda parameter lists; depth 3 is a seeded residue class
+    run.extra["exhaustive_up_to_depth"] = 2
     run.extra.update(parentheses_validated_against_cpython=stats["parens_validated"], storage_sites_checked=stats["sites"],
                      model_defects_not_reproduced=stats["not_reproduced"], clean_cases=stats["clean"])
     if stats["drift"]:
